@@ -106,6 +106,11 @@ func runC10(cases string, res *Result) {
 						Detail: "engine settings that have nothing to do with inheritance change what the template renders"})
 					return
 				}
+				if msg := evalAfterHistory(c, parseContext(c.str("ctx")), nil, out, class); msg != "" {
+					add(Finding{Kind: "oracle", Where: where + "/history", Case: c, Expected: observed, Observed: msg,
+						Detail: "what the engine did before changes what the chain renders"})
+					return
+				}
 			}
 			if i == 0 {
 				res.Hist["by-other-routes"]++
